@@ -20,6 +20,7 @@ pub(crate) fn in_i32_range(x: core::primitive::f32) -> bool {
 // @ob props=C20 tier=quick kind=P cfg=core-none,core-std timeout=300
 // @fn fallback::floor
 // @clause contract of the built-in fallback floor: for every |x| < 2^63 the result is an integer r with r <= x < r+1 (exact floor, negative integers and -0.0 included)
+#[cfg(not(verif_skip_float_fallback_floor_contract))]
 #[kani::proof_for_contract(fallback::floor)]
 fn float_fallback_floor_contract() {
     let x: core::primitive::f32 = kani::any();
@@ -29,6 +30,7 @@ fn float_fallback_floor_contract() {
 // @ob props=C20 tier=quick kind=P cfg=core-none,core-std timeout=300
 // @fn fallback::abs
 // @clause the fallback abs is exact for every f32 bit pattern: |x| for numbers, NaN stays NaN, result has a clear sign bit
+#[cfg(not(verif_skip_float_fallback_abs_exact))]
 #[kani::proof]
 fn float_fallback_abs_exact() {
     let x: core::primitive::f32 = kani::any();
@@ -46,6 +48,7 @@ fn float_fallback_abs_exact() {
 // @fn mm::floor mm::abs
 // @clause micromath backend: floor is exact for every |x| < 2^31, abs is exact for every bit pattern
 #[cfg(feature = "mm")]
+#[cfg(not(verif_skip_float_mm_floor_abs_exact))]
 #[kani::proof]
 fn float_mm_floor_abs_exact() {
     let x: core::primitive::f32 = kani::any();
@@ -61,6 +64,7 @@ fn float_mm_floor_abs_exact() {
 // @fn libm::floor libm::abs
 // @clause libm backend: floor is exact for every |x| < 2^63 and maps every finite x to an integer <= x, abs is exact for every bit pattern
 #[cfg(feature = "libm")]
+#[cfg(not(verif_skip_float_libm_floor_abs_exact))]
 #[kani::proof]
 fn float_libm_floor_abs_exact() {
     let x: core::primitive::f32 = kani::any();
@@ -78,6 +82,7 @@ fn float_libm_floor_abs_exact() {
 // @fn f32::floor(std)
 // @clause reference backend: std floor satisfies the same floor specification the other backends are held to (so agreement with std is agreement with the spec)
 #[cfg(feature = "std")]
+#[cfg(not(verif_skip_float_std_floor_is_spec))]
 #[kani::proof]
 fn float_std_floor_is_spec() {
     let x: core::primitive::f32 = kani::any();
